@@ -1,6 +1,6 @@
 """C03 class level: TokenCooccurrenceVectorizer end to end against the reference (block order, orientation expansion)."""
-from harness import cls_cooc
+from harness import cls_cooc, cls_cooc_family
 
 
 def cases(tier):
-    return cls_cooc.cases(tier, props=("C03",))
+    return cls_cooc.cases(tier, props=("C03",)) + cls_cooc_family.vs_token_cases(tier)
